@@ -6,6 +6,7 @@ import (
 	"sort"
 	"strings"
 
+	"github.com/aergoio/aergo/v2/config"
 	"github.com/aergoio/aergo/v2/zz_verif/vh"
 	"github.com/rs/zerolog"
 )
@@ -114,7 +115,7 @@ func shapes(n int) [][]int {
 	return out
 }
 
-var invalidKinds = []kind{kBadRoot, kBadTx, kCons, kBadTxRoot, kBadRcpt}
+var invalidKinds = []kind{kBadRoot, kBadTx, kCons, kBadTxRoot, kBadRcpt, kBadSig}
 
 // famSmall: every tree shape with n blocks, with no invalid block or one invalid block at each position, delivered in
 // every order (maxOrders < 0) or in maxOrders sampled orders.
@@ -220,10 +221,19 @@ func (e *env) famRandom(maxBlocks int) {
 	if e.rng.Chance(1, 3) {
 		sc.lib[e.rng.Intn(len(sc.arrivals))] = uint64(e.rng.Intn(4))
 	}
+	if e.rng.Chance(1, 3) {
+		// some arrivals come from the node's own block factory (taken when the block extends the best block at that moment)
+		sc.own = map[int]bool{}
+		for i := range sc.arrivals {
+			if e.rng.Chance(1, 3) {
+				sc.own[i] = true
+			}
+		}
+	}
 	if e.rng.Chance(1, 6) {
 		// an altered copy of some block (same identifier) arrives somewhere
 		v := e.rng.Intn(n)
-		sc.blocks = append(sc.blocks, e.p.alter(blocks[v], e.rng.Intn(3)))
+		sc.blocks = append(sc.blocks, e.p.alter(blocks[v], e.rng.Intn(nAlter)))
 		at := e.rng.Intn(len(sc.arrivals) + 1)
 		sc.arrivals = append(sc.arrivals[:at], append([]int{n}, sc.arrivals[at:]...)...)
 	}
@@ -455,7 +465,7 @@ func (e *env) famThreeBranches() {
 // famLead5: an altered copy of a block carrying the genuine identifier, then the genuine block (DESIGN §5 lead 5);
 // on the main chain, on a side branch, and parked as an orphan.
 func (e *env) famLead5() {
-	for how := 0; how < 3; how++ {
+	for how := 0; how < nAlter; how++ {
 		// main chain: a0 a1 | altered a2, genuine a2, a3
 		bl := e.build("m", []spec{{-1, kValid, 1}, {0, kValid, 2}, {1, kValid, 2}, {2, kValid, 1}})
 		alt := e.p.alter(bl[2], how)
@@ -505,6 +515,56 @@ func (e *env) famPools() {
 	}
 }
 
+// famOwn: the node's own-block path (message.AddBlock with a block state: usedBState != nil): a producing node extends
+// its chain with its own blocks, receives the same block again, produces on a stale best block, produces a block the
+// consensus refuses / whose header does not match the produced state, and is reorganised away from its own blocks by a
+// longer branch from the network (own transactions offered back), then produces on top of the adopted branch.
+func (e *env) famOwn() {
+	ownAt := func(steps ...int) map[int]bool {
+		m := map[int]bool{}
+		for _, x := range steps {
+			m[x] = true
+		}
+		return m
+	}
+	for rep := 0; rep < 2; rep++ {
+		// o0 o1 o2 own; o1 again from the network; side branch b0..b3 from genesis (longer) from the network; o3 (child of o2) is
+		// produced too late (stale); c0 own on top of b3
+		bl := e.build("w", []spec{{-1, kValid, 1 + rep}, {0, kValid, 2}, {1, kValid, 1}, {-1, kValid, 1}, {3, kValid, 2}, {4, kValid, 1}, {5, kValid, 1},
+			{2, kValid, 1}, {6, kValid, 2}})
+		e.runScenario(&scenario{name: "own/chain-reorged-away", blocks: bl, arrivals: []int{0, 1, 2, 1, 3, 4, 5, 6, 7, 8, 8},
+			own: ownAt(0, 1, 2, 8, 9)})
+		// mixed: network block, own block on top, own block of a stale parent, network sibling wins later
+		e.runScenario(&scenario{name: "own/mixed", blocks: bl, arrivals: []int{0, 1, 3, 2, 4, 5, 7, 6, 8}, own: ownAt(1, 3, 6, 8)})
+		// own blocks the chain service must refuse: the consensus says no; the header's state root is not the produced one;
+		// afterwards a good own block is connected
+		for _, k := range []kind{kCons, kBadRoot} {
+			bl = e.build("x", []spec{{-1, kValid, 1}, {0, k, 2}, {0, kValid, 1 + rep}, {2, kValid, 1}})
+			e.runScenario(&scenario{name: "own/refused-" + k.String(), blocks: bl, arrivals: []int{0, 1, 1, 2, 3}, own: ownAt(0, 1, 2, 3, 4)})
+		}
+		// children first from the network, then the parent as own block: the orphans parked under an own block are NOT
+		// connected by that arrival (the own-block run does not resolve orphans)
+		bl = e.build("z", []spec{{-1, kValid, 1}, {0, kValid, 1}, {1, kValid, 1}, {2, kValid, 1}})
+		e.runScenario(&scenario{name: "own/orphans-under-own-block", blocks: bl, arrivals: []int{0, 2, 3, 1, 2, 3}, own: ownAt(0, 3)})
+	}
+}
+
+// famDeploys: contract deployments whose constructor emits events, fails inside the VM (ERROR receipt, still included) or
+// reports internal operations, on both branches of a reorganisation that is carried out and of one that fails half-way
+// (the side blocks executed before the failure keep their receipts on disk: they must not be served).
+func (e *env) famDeploys(n int) {
+	e.p.deploys = 2
+	defer func() { e.p.deploys = 0 }()
+	for i := 0; i < n; i++ {
+		s := 2 + e.rng.Intn(3)
+		inv := -1
+		if e.rng.Chance(1, 2) {
+			inv = 1 + e.rng.Intn(s-1) // not the first side block: at least one side block executes before the failure
+		}
+		e.famTwoBranches(e.rng.Intn(2), 1+e.rng.Intn(2), s, inv, []kind{kBadRoot, kBadTx, kBadRcpt}[e.rng.Intn(3)], 3, -1)
+	}
+}
+
 // famSigRegression: regression case of the stale signature-verification result (recorded under C04, fixed in /repo by
 // 4499f0c6): a block whose transaction fails to execute, then a block with a transaction whose signature does not
 // verify: the second one must be refused (the model says so: it never executes), and a valid block after it accepted.
@@ -519,7 +579,7 @@ func Main(prop string) {
 	name := strings.ToLower(prop)
 	run := vh.Start(name, "an arrival is non-trivial when the block was accepted (connected, stored on a side branch, parked, or reorganised to); an observation always is")
 	rng := run.Rng
-	w := newWorld(filepath.Join(run.Out, "nodes"))
+	w := newWorld(filepath.Join(run.Out, "nodes"), config.AllEnabledHardforkConfig)
 	e := &env{run: run, prop: prop, w: w, rng: rng, reported: map[string]int{}}
 	// NewChainService sets the process-wide execution parameters (zero fee on a private net, governance,
 	// system parameters): create one node before the producer executes anything
@@ -530,6 +590,29 @@ func Main(prop string) {
 	e.famSigRegression()
 	e.famNumbers()
 	e.famPools()
+	if prop == "C05" || prop == "C07" {
+		e.famOwn()
+		e.famDeploys(run.Pick(12, 120))
+		// the same on a chain whose hardforks come one after the other (receipts of the blocks below the V2 height are
+		// stored in the old encoding, the chain id version changes along every branch)
+		e2 := &env{run: run, prop: prop, rng: rng, reported: e.reported}
+		e2.w = newWorld(filepath.Join(run.Out, "nodes-staged"), &config.HardforkConfig{V2: 2, V3: 3, V4: 4, V5: 6})
+		e2.w.newNode(100, 128).close()
+		e2.p = e2.w.newProducer(rng.Fork())
+		e2.famOwn()
+		e2.famDeploys(run.Pick(8, 80))
+		for i := 0; i < run.Pick(10, 100); i++ {
+			s := 1 + rng.Intn(4)
+			e2.famTwoBranches(rng.Intn(3), 1+rng.Intn(3), s, rng.Intn(s+1)-1, invalidKinds[rng.Intn(len(invalidKinds))], 3, -1)
+		}
+		for i := 0; i < run.Pick(30, 300); i++ {
+			e2.famRandom(run.Pick(10, 16))
+		}
+		e.sessions += e2.sessions
+		run.Count(fmt.Sprintf("sessions-with-staged-hardforks=%d", e2.sessions))
+		// back to the first world's parameters (NewChainService sets process-wide ones)
+		e.w.newNode(100, 128).close()
+	}
 	if prop == "C18" {
 		// C18, third clause: content that does not hash to the announced identifier is discarded without affecting what
 		// the node later accepts: altered copies of a block (every kind of alteration) offered before / between / after the
